@@ -343,6 +343,46 @@ pub fn run(ctx: &Ctx) -> i32 {
             acc.cov("programs:namesakes-skipped-or-discarded");
         }
     });
+    // many state variables in one file (65-200 over two or three contracts), some assigned in constructors
+    let n_mv = ctx.tier.pick(10u64, 300u64);
+    run_workload(ctx, &mut acc, "many-variables", n_mv, |k, rng, acc| {
+        let mut t = String::from("pragma solidity 0.8.17;\n");
+        let ncontracts = rng.range(2, 3);
+        let mut counter = 0usize;
+        for c in 0..ncontracts {
+            let nv = if c == 0 { rng.range(60, 140) } else { rng.range(3, 40) };
+            t.push_str(&format!("contract Many{}_{} {{\n", k, c));
+            let mut mine = vec![];
+            for _ in 0..nv {
+                // names sort in an order unrelated to declaration order
+                let name = format!("{}{}", ["zz", "aa", "mm", "Qq", "_p"][counter % 5], counter);
+                counter += 1;
+                let ty = rng.ps(&["uint256", "address", "uint8", "bytes32", "bool", "uint128"]);
+                t.push_str(&format!("    {} {};\n", ty, name));
+                mine.push((name, ty));
+            }
+            if rng.chance(3, 4) {
+                t.push_str("    constructor() {\n");
+                for (name, ty) in mine.iter().filter(|_| rng.chance(1, 4)) {
+                    let v = match *ty {
+                        "address" => "msg.sender",
+                        "bool" => "true",
+                        "bytes32" => "bytes32(0)",
+                        _ => "7",
+                    };
+                    t.push_str(&format!("        {} = {};\n", name, v));
+                }
+                t.push_str("    }\n");
+            }
+            if let Some((name, _)) = mine.iter().find(|(_, ty)| *ty == "uint256") {
+                t.push_str(&format!("    function bump{}() external {{\n        {} += 1;\n    }}\n", c, name));
+            }
+            t.push_str("}\n");
+        }
+        if check_file(&format!("many-variables#{}", k), &t, acc) {
+            acc.cov("programs:many-variables");
+        }
+    });
     let n = ctx.tier.pick(400u64, 100000u64);
     run_workload(ctx, &mut acc, "generated", n, |k, rng, acc| {
         let mut cfg = Cfg::normal();
